@@ -27,11 +27,18 @@ RangeList = List[Tuple[Optional[int], Optional[int]]]
 def _parseparam(s):
     while s[:1] == ';':
         s = s[1:]
-        end = s.find(';')
-        while end > 0 and (s.count('"', 0, end) - s.count('\\"', 0, end)) % 2:
-            end = s.find(';', end + 1)
-        if end < 0:
-            end = len(s)
+        # the first ';' outside a quoted string ends the parameter; inside a
+        # quoted string a backslash escapes the next character
+        end = 0
+        quoted = False
+        while end < len(s):
+            if quoted and s[end] == '\\':
+                end += 1
+            elif s[end] == '"':
+                quoted = not quoted
+            elif s[end] == ';' and not quoted:
+                break
+            end += 1
         f = s[:end]
         yield f.strip()
         s = s[end:]
